@@ -65,13 +65,14 @@ let show_rec = function
   | Some (Item x) -> "x" ^ show_val x
 
 (* ---- ops *)
-type o = P of int list * v | G of int list | R | K of int
+type o = P of int list * v | G of int list | R | K of int | C of n     (* C mb: close, reopen with capacity mb *)
 let parse_ops s =
   if s = "." then [] else
   List.map (fun o -> match split ',' o with
     | ["p"; id; vl] -> P (Util.bytes_of_hex id, parse_val vl)
     | ["g"; id] -> G (Util.bytes_of_hex id)
     | ["r"] -> R
+    | ["c"; mb] -> (match n_of_dec_opt mb with Some m -> C m | None -> failwith "op")
     | ["k"; c] -> K (int_of_string c)
     | _ -> failwith "op") (split ';' s)
 let pool ops =
@@ -103,7 +104,12 @@ let model_run dec (capmb : n) node ops =
         (r, step vlen vhead8 dec !y (OPut (b id, x)))
       | G id -> (show_get !y id, step vlen vhead8 dec !y (OGet (b id)))
       | R -> ("-", step vlen vhead8 dec !y OReopen)
-      | K c -> ("-", step vlen vhead8 dec !y (OCrash (nat_ c))) in
+      | K c -> ("-", step vlen vhead8 dec !y (OCrash (nat_ c)))
+      | C mb ->
+        (* a restart under another configuration: NewStorage gets the new capacity, everything else is the reopen *)
+        let m = !y.mem in
+        let y1 = { !y with mem = { m with capMB = mb } } in
+        ("-", step vlen vhead8 dec y1 OReopen) in
     (match nxt with
      | Ok y' -> y := y'; steps := observe res y' ids :: !steps
      | _ -> stop := Some i; raise Exit)) ops with Exit -> ());
@@ -158,11 +164,13 @@ let fold_steps ops (obs : obs list) nids f =
 (* ---------------- C04 monitors *)
 let c04_monitors (capmb : n) node ops (obs : obs list) : string list =
   let ids = pool ops in
-  let cap = capmb *: k_bytesPerMB in
+  let capr = ref (capmb *: k_bytesPerMB) in
   let fails = ref [] in
   let fail k d = fails := (k ^ " " ^ d) :: !fails in
   let putvals = Hashtbl.create 16 in       (* id -> values put so far *)
   fold_steps ops obs (List.length ids) (fun i o prev ob ->
+    (match o with C mb -> capr := mb *: k_bytesPerMB | _ -> ());
+    let cap = !capr in
     let over_put id x = (prev.cnt +: n_ (List.length id + vlen_i x)) >: cap in
     (match o with P (id, x) -> Hashtbl.add putvals id (show_val x) | _ -> ());
     (match o with
@@ -184,7 +192,7 @@ let c04_monitors (capmb : n) node ops (obs : obs list) : string list =
            if g <> g0 && g = "nf" && not (over_put id' x) then fail "item-lost-without-prune" (Printf.sprintf "step=%d id#%d" i j)
          | P _ -> ()
          | G _ -> if g <> g0 then fail "get-changed-by-get" (Printf.sprintf "step=%d id#%d %s->%s" i j g0 g)
-         | R | K _ ->
+         | R | K _ | C _ ->
            if g <> g0 && g <> "nf" then fail "get-changed-by-reopen" (Printf.sprintf "step=%d id#%d %s->%s" i j g0 g);
            if g <> g0 && g = "nf" && not (rec_n prev >: cap) then fail "item-lost-by-reopen-without-prune" (Printf.sprintf "step=%d id#%d" i j))
       end) ids;
@@ -202,10 +210,11 @@ let c05_monitors (capmb : n) node ops (obs : obs list) : string list =
   let expect_ = capmb *: k_contentDeletionPPM in
   let fails = ref [] in
   let fail k d = fails := (k ^ " " ^ d) :: !fails in
+  let ops_has_c = List.exists (function C _ -> true | _ -> false) ops in
   let all_valid = List.for_all (valid_id node) ids in
   let small = List.for_all (function P (id, x) -> n_ (List.length id + vlen_i x) <=: expect_ | _ -> true) ops in
   let sizes = Hashtbl.create 16 in         (* id -> bytes of the entry currently believed present *)
-  if all_valid then
+  if all_valid && not ops_has_c then
   fold_steps ops obs (List.length ids) (fun i o prev ob ->
     if ob.held >: ob.cnt then fail "held-exceeds-counter" (Printf.sprintf "step=%d held=%s counter=%s" i (sd ob.held) (sd ob.cnt));
     if ob.recs <> "none" && not (has_rec ob) then fail "size-record-is-not-a-counter" (Printf.sprintf "step=%d rec=%s" i ob.recs);
@@ -237,7 +246,7 @@ let c05_monitors (capmb : n) node ops (obs : obs list) : string list =
        check_prune ((prev.cnt +: n_ len) >: cap) (N.sub (prev.held +: n_ len) (n_ old)) "put"
      | P _ -> ()
      | G _ -> check_prune false prev.held "get"
-     | R | K _ -> check_prune (rec_n prev >: cap) prev.held "reopen"));
+     | R | K _ | C _ -> check_prune (rec_n prev >: cap) prev.held "reopen"));
   List.rev !fails
 
 (* ---------------- C06 monitors *)
@@ -255,7 +264,7 @@ let c06_raw node ops (obs : obs list) : string list =
        if n_lt (be_dec (key_of node id)) prev.radius then fail "put-refused-inside-radius" (Printf.sprintf "step=%d radius=%s" i prev.rads)
      | _ -> ());
     (match o with
-     | R | K _ -> ()
+     | R | K _ | C _ -> ()
      | _ -> if not (n_le ob.radius prev.radius) then fail "radius-increased-during-run" (Printf.sprintf "step=%d %s->%s" i prev.rads ob.rads)));
   List.rev !fails
 
@@ -275,8 +284,7 @@ let attribute_le (capmb : n) node ops impl fails known_key =
 (* ---------------- C17 monitors (clean reopen steps of a history) *)
 let c17_monitors (capmb : n) node ops (obs : obs list) impl : string list =
   let ids = pool ops in
-  let cap = capmb *: k_bytesPerMB in
-  let expect_ = capmb *: k_contentDeletionPPM and thr_ = capmb *: (N.sub k_bytesPerMB k_contentDeletionPPM) in
+  let cmb = ref capmb in
   let fails = ref [] in
   let fail k d = fails := (k ^ " " ^ d) :: !fails in
   let putvals = Hashtbl.create 16 in
@@ -284,8 +292,12 @@ let c17_monitors (capmb : n) node ops (obs : obs list) impl : string list =
   if List.for_all (valid_id node) ids then
   fold_steps ops obs (List.length ids) (fun i o prev ob ->
     (match o with P (id, x) -> Hashtbl.add putvals id (show_val x) | _ -> ());
+    (match o with C mb -> cmb := mb | _ -> ());
+    (* thresholds of the configuration the store is (re)opened with *)
+    let cap = !cmb *: k_bytesPerMB in
+    let expect_ = !cmb *: k_contentDeletionPPM and thr_ = !cmb *: (N.sub k_bytesPerMB k_contentDeletionPPM) in
     match o with
-    | R | K _ ->
+    | R | K _ | C _ ->
       List.iteri (fun j id ->
         let g = List.nth ob.gets j in
         if g <> "nf" && not (List.mem g (Hashtbl.find_all putvals id))
@@ -484,6 +496,12 @@ let handle fields impl : string option * string list =
      | Some c ->
        let y : v sys = init c k_contentDeletionPPM (b []) in
        (Some (Printf.sprintf "ok %s %s" (dec_of_n (expect y.mem)) (dec_of_n (thr y.mem))), []))
+  | ["retainx"; _] ->
+    (* by value size class; the detail names the classes whose handed-out bytes changed *)
+    (match (try Scanf.sscanf impl "ok checked=%d changed=%d classes=%s" (fun k c cl -> Some (k, c, cl)) with _ -> None) with
+     | Some (k, 0, _) when k > 0 -> (None, [])
+     | Some (_, c, cl) -> (None, [Printf.sprintf "get-returned-slice-changed-later size-classes(bytes:slices)=%s changed=%d" cl c])
+     | None -> (None, ["get-returned-slice-check-failed " ^ impl]))
   | ["retain"; _; _; _; _] ->
     (* memory lifetime of the bytes handed out by Get: outside the Gallina model, monitor only *)
     let changed = try Scanf.sscanf impl "ok checked=%d changed=%d" (fun _ c -> c) with _ -> -1 in
